@@ -285,6 +285,9 @@ def run(ctx):
     templates = template_rule(ctx, repo)
     single_source_rule(ctx, repo)
     fields_rule(ctx, repo, templates)
+    from sa.rules import C16links
+    C16links.run(ctx, repo)
+    C16links.run_operands(ctx, repo)
     from sa.rules import stalecopy
     stalecopy.run(ctx, repo, 'C16.6-stale-copy', ('skoolhtml', 'skool2html', 'skoolparser'))
     from sa.rules import memo
